@@ -64,7 +64,7 @@ class C06Runner:
 		self.hex_table: dict[str, str] = {}
 		self.kinds_seq: list[str] = []
 		self.path_of: dict[str, str] = {}  # module -> output relpath (from the forced oracle's headers)
-		self.out_written: dict[str, dict[str, Any]] = {}  # module -> {'state','versions'} when its output was last written
+		self.out_written: dict[str, dict[str, Any]] = {}  # output file -> {'state','versions'} when it was last written
 		self.known_ids = {k['id'] for k in known_for('C06')}
 		self.changed = False
 		self.cache_written: dict[str, dict[str, Any]] = {}
@@ -260,18 +260,19 @@ class C06Runner:
 
 	def account_written(self, rec: dict[str, Any]) -> None:
 		account_cache_writes(self.cache_written, rec.get('trace', []), self.proj.state, set(self.proj.cache_files()))
-		inv = {rel: m for m, rel in self.path_of.items()}
+		# per output FILE (settings may change: the same module can have been written to several places at different times)
 		for ev in rec.get('trace', []):
-			if ev[0] == 'open-w' and ev[1] in inv:
-				self.out_written[inv[ev[1]]] = {'state': dict(self.proj.state), 'versions': dict(self.versions)}
+			if ev[0] == 'open-w' and ev[1].startswith('out'):
+				self.out_written[ev[1]] = {'state': dict(self.proj.state), 'versions': dict(self.versions)}
 
-	def dependency_stale_outputs(self) -> list[str]:
-		"""Signature of C06/dependency-edit-not-regenerated: outputs whose own source, path and versions are unchanged since they
-		were written while a module of their import closure changed content."""
+	def dependency_stale_outputs(self, by_module: dict[str, str]) -> list[str]:
+		"""Signature of C06/dependency-edit-not-regenerated: current output files whose module's own source and the versions are unchanged
+		since the file was written while a module of that module's import closure changed content."""
 		out = []
 		state = self.proj.state
-		for m, w in self.out_written.items():
-			if m not in state or w['versions'] != self.versions or w['state'].get(m) != state[m]:
+		for m, rel in by_module.items():
+			w = self.out_written.get(rel)
+			if w is None or m not in state or w['versions'] != self.versions or w['state'].get(m) != state[m]:
 				continue
 			changed = {x for x in state if w['state'].get(x) != state[x]}
 			then_state = {**state, **{k: v for k, v in w['state'].items() if k in state}}
@@ -283,11 +284,11 @@ class C06Runner:
 	def known_or_violation(self, vclass: str, i: int, detail: dict[str, Any], by_module: dict[str, str], out_b: dict[str, str], force: bool) -> None:
 		known = None
 		if KF_DEP in self.known_ids and not force:
-			comp = self.dependency_stale_outputs()
+			comp = self.dependency_stale_outputs(by_module)
 			if comp:
 				post = self.proj.sc.snapshot()
 				for m in comp:
-					rel = self.path_of.get(m)
+					rel = by_module.get(m)
 					if rel:
 						self.proj.sc.remove(rel)
 				rec = self.run(False)
@@ -364,7 +365,7 @@ class C06(Engine):
 		'version upgrade) between two judged runs')
 	quick_runs = 60
 	thorough_runs = 2000
-	quick_budget_s = 110.0
+	quick_budget_s = 90.0
 	thorough_budget_s = 1700.0
 	components_real = ['Runner.can_transpile/try_load_meta_header/output_filepath/fetch_output_path', 'MetaHeader', 'module_meta_factory', 'Writer (incl. PermissionError retry)', 'Py2Cpp entrypoint header rendering', 'the whole pipeline behind them with a healthy cache']
 	components_stubbed = Engine.components_stubbed + ['builtins.open interposed (trace; injected EACCES on output files)', 'time.sleep virtual', 'Versions.app / Versions.py2cpp patched in the child to model a tool upgrade']
@@ -394,6 +395,12 @@ class C06(Engine):
 				c([run_op(fault={'kind': 'eacces@open', 'pick': 0.5, 'count': 1}), run_op()])
 				c([run_op(fault={'kind': 'eacces@open', 'pick': 0.5, 'count': 2}), run_op()])
 				c([run_op(True), {'op': 'edit', 'm': top, 'v': 2}, run_op(fault={'kind': 'eacces@open', 'pick': 0.0, 'count': 2}), run_op()])
+		# a prefix rule and module paths that repeat the prefix further in (pkg/b.py, pkg/pkg/b.py): outputs must stay distinct
+		rng = random.Random(5)
+		for shape in ('pairs', 'chain4'):
+			pool = pools.gen_pool(rng, shape=shape, n_variants=2, allow_invalid=False, names=['pkg.b', 'pkg.pkg.b', 'src.a', 'src.src.a'])
+			cfg = {'output_dirs': ['pkg/:out/p0', 'src/:out/p1', './out/fb']}
+			cases.append({'pool': pool, 'config': cfg, 'kind': 'canonical', 'ops': [run_op(), run_op(), {'op': 'edit', 'm': 'pkg.b', 'v': 1}, run_op(), run_op(True), run_op()]})
 		for which in (0, 2):
 			pool = pools.fixed_pool(which)
 			pool['modules'] = pool['modules'] + ['src.util', 'pkg.util']
